@@ -37,10 +37,10 @@ theorem Sem.add_zero (a : Sem) : a.add Sem.zero = a := by
   apply Sem.ext' <;> simp [Sem.add, Sem.zero, omin_none_right]
 
 theorem Sem.add_comm (a b : Sem) : a.add b = b.add a := by
-  apply Sem.ext' <;> simp [Sem.add, Nat.add_comm, omin_comm, Nat.max_comm]
+  apply Sem.ext' <;> simp [Sem.add, Nat.add_comm, Int.add_comm, omin_comm, Nat.max_comm]
 
 theorem Sem.add_assoc (a b c : Sem) : (a.add b).add c = a.add (b.add c) := by
-  apply Sem.ext' <;> simp [Sem.add, Nat.add_assoc, omin_assoc, Nat.max_assoc]
+  apply Sem.ext' <;> simp [Sem.add, Nat.add_assoc, Int.add_assoc, omin_assoc, Nat.max_assoc]
 
 theorem Sem.add_left_comm (a b c : Sem) : a.add (b.add c) = b.add (a.add c) := by
   rw [← Sem.add_assoc, Sem.add_comm a b, Sem.add_assoc]
